@@ -446,7 +446,9 @@ Definition spec_ok_e (c : ecase) : bool :=
    scripted handler ignores its context and stays parked for s_hold ms (0: returns at once).  Crash is built in. *)
 Record scase := mksc {
   s_timeout : Z; s_hold : Z; s_h : hres;
-  so_res : rres; so_hung : bool; so_prompt : bool
+  so_res : rres; so_hung : bool; so_prompt : bool;
+  so_deadline : Z;       (* ms until ctx.Deadline() as the handler saw it when entered; -1: the context had no deadline *)
+  so_reply : Z           (* ms the client waited for the reply *)
 }.
 Definition s_overrun (c : scase) : bool := (0 <? s_hold c) && (0 <? s_timeout c) && (s_timeout c <? s_hold c).
 (* what crosses the wire: a response message only together with an OK status *)
@@ -459,10 +461,19 @@ Definition s_to_r (c : scase) : rcase :=
 Definition on_wire (r : rres) : rres :=
   match r with RResult None O => RResult (Some O) O | x => x end.
 Definition model_ok_s (c : scase) : bool :=
-  Bool.eqb (so_prompt c) (s_overrun c) &&
+  Bool.eqb (so_prompt c) (s_overrun c) && Bool.eqb (0 <=? so_deadline c) (rpc_has_timeout (s_timeout c)) &&
   if rpc_has_timeout (s_timeout c) then model_ok_r (s_to_r c)
   else negb (so_hung c) && rres_eqb (on_wire (rpc_server_direct (s_handler c))) (so_res c).
-Definition spec_ok_s (c : scase) : bool := (if s_overrun c then so_prompt c else true) && spec_ok_r (s_to_r c).
+(* ServerConfig.Timeout is in MILLISECONDS: the handler's context expires s_timeout ms after the call came in (the handler
+   is entered within half of it), and an overrunning call is answered about then -- not seconds later, not at the release *)
+Definition deadline_ok (c : scase) : bool :=
+  if rpc_has_timeout (s_timeout c)
+  then (0 <? so_deadline c) && (s_timeout c / 10 <=? so_deadline c) && (so_deadline c <=? s_timeout c)
+  else so_deadline c =? -1.
+Definition reply_ok (c : scase) : bool :=
+  if s_overrun c then (s_timeout c / 2 <=? so_reply c) && (so_reply c <? s_timeout c + Z.min 1000 (s_hold c - s_timeout c)) else true.
+Definition spec_ok_s (c : scase) : bool :=
+  (if s_overrun c then so_prompt c else true) && deadline_ok c && reply_ok c && spec_ok_r (s_to_r c).
 
 (* ------------------------------------------------------------------ application-wide httpx error handlers *)
 (* a scripted handler may also report an error through httpx.Error / httpx.ErrorCtx; what that does to its writer
